@@ -10,6 +10,51 @@ BASE_NOTE = ("Trusted: Coq 8.16.1 kernel and vm_compute (no native_compute, no a
              "where marked exhaustive. ")
 
 CHECKS = {
+ "C01": dict(
+   text="Theorems (Coq, closed under the global context): C01_vm_refines_sem - for every resolved pattern, text and start state the VM reaches exactly the "
+        "specification's outcomes in priority order with all stacks restored, crash-free (mutual rule induction over the ordered-outcomes semantics Spec/Sem.v: atoms, "
+        "in/not in, greedy and fewest loops with zero-width rejection, alternation, captures, back-references, inline subroutines, calls incl. guarded recursion, stored "
+        "patterns with predicates); C01_attempt - an attempt of a whole command yields the FIRST outcome or FAILED; C01_find_all - `find all` = leftmost non-overlapping "
+        "non-empty scan of the specification with Value = text[Start:End], bindings and consecutive numbers; C01_oracle_sound. Windows: C04. Tie to /repo: three-layer "
+        "correspondence (bytecode equal up to loop-id renaming, model VM on the implementation's bytecode, end-to-end) plus implementation vs extracted specification, on "
+        "generated programs and exhaustive small programs x texts.",
+   note="Theorem scope: unnamed loops, `between m and n` with m<=n as written, ASCII caseless literals, hypotheses loop_ok (well-formed resolved pattern) and existence of a "
+        "specification derivation (total for call-free patterns by C10; guarded recursion whenever defined). Atom semantics (classes, anchors) are shared by model and spec and "
+        "tied to the Go code only by the correspondence. Named loops: model + correspondence only. The regular-subset clause (same spans as the equivalent regex) is covered for regex literals under C14.",
+   technique="Coq proof (refinement of a backtracking VM to an ordered-outcomes semantics, unbounded) + differential correspondence model/spec/implementation",
+   ref="DESIGN.md 7 C01"),
+ "C02": dict(
+   text="Theorems (closed): C02_vars_of_match - the variables of every reported match are the bindings of the specification's first outcome at that offset, built only along "
+        "the successful derivation; C02_alternatives_isolated, C02_capture_binds (binding = text consumed on that path, latest wins), C02_backref_exact. Tie: variables compared "
+        "as sorted maps at all layers on templates that bind on an abandoned alternative/iteration/call and then fail.",
+   note="Named-loop variable nests are modelled and compared but outside the theorem. The aliasing defect (shared environment map) was repaired in /repo (61584fb); the model is of the repaired code.",
+   technique="Coq proof (corollaries of the refinement theorem and inversion lemmas on the semantics) + differential correspondence on abandoned-binding templates",
+   ref="DESIGN.md 7 C02"),
+ "C09": dict(
+   text="Theorems (closed): C09_attempt_no_crash - wherever the specification is defined an attempt ends in SUCCESS or FAILED (every VM crash site is an explicit Crashed result "
+        "of the model and is unreachable); C09_find_returns - for call-free, predicate-free patterns `find all` returns a match list on every text; C09_find_returns_when_defined. "
+        "Tie: generated + corpus programs on every prefix of texts and the empty text; any panic/hang of Run on an accepted program is reported.",
+   note="Known findings (printed, not failed): K23 integer division by zero in process code; K24 a process variable whose static type depends on the branch taken. Process-code safety is the "
+        "checker's business (C12). RunFiles/reader side: C06/C07.",
+   technique="Coq proof (crash-freedom built into the refinement theorem) + differential correspondence with crash classes",
+   ref="DESIGN.md 7 C09"),
+ "C10": dict(
+   text="Theorems (closed): C10_spec_total - the ordered-outcomes semantics is total on call-free patterns (inner induction on |text|-position; the zero-width rejection is what makes "
+        "a continued iteration consume); C10_find_terminates - hence the VM's `find all` returns within a finite step budget on every text. Tie: exhaustive nullable programs to "
+        "depth 3 x all short texts must return whenever the model does.",
+   note="Guarded recursion: termination follows whenever the specification is defined (C09_find_returns_when_defined) but totality of the specification under recursion is not proved (partial). "
+        "Exponential backtracking is termination; cases where the model exceeds its own step bound are reported as 'both expensive', not as hangs.",
+   technique="Coq proof (well-founded measure on remaining text) + exhaustive small-scope enumeration of nullable loop nests",
+   ref="DESIGN.md 7 C10"),
+ "C13": dict(
+   text="Theorems (closed): C13_gen_relocate - laying a stored pattern out d pcs further = adjust() on every stored instruction (subroutine ids move with call targets, no aliasing); "
+        "C13_transparent_inline / C13_transparent_call - {B}=s in place and a call of s mean B in the specification, so by C01 all forms give the same matches; C13_run_concat - a "
+        "multi-command result is the concatenation of its commands' results. Tie: written-out vs inline+calls vs set..to pattern sources must agree on the implementation; per-command "
+        "runs vs whole run; compile-twice/run-twice histories; bytecode unchanged by running.",
+   note="Determinism of compile and run is immediate for the model (functions); for the implementation it is checked on histories (math/rand loop ids are renamed canonically). "
+        "The model's generator is resolve+compile (Model/Gen.v, Model/Rx.v); its equality with the Go generator is checked by bytecode comparison on every case.",
+   technique="Coq proof (relocation lemma by structural induction; transparency by inversion) + metamorphic/differential checks on the implementation",
+   ref="DESIGN.md 7 C13"),
  "C04": dict(
    text="Theorems C04_windows_any_engine / C04_find_matches / C04_replace (Coq, closed): for ANY attempt function, text and window sizes, "
         "top/take n, skip s, skip s take t and last n (n>=1) of the model's findMatches are firstn/skipn slices of the `find all` sequence, "
